@@ -325,39 +325,37 @@ class PCT:
         return t
 
 
-def explore(run_with, bound, max_runs=None, shard=None):
-    """Every schedule with at most `bound` preemptions.
+def children(choices, runnable_log, prefix_len, used, bound):
+    """The nodes below a run in the preemption-bounded search tree: (forced prefix, preemptions used)."""
+    kids = []
+    for i in range(prefix_len, len(choices)):
+        cur = choices[i - 1] if i > 0 else None
+        for alt in runnable_log[i]:
+            if alt == choices[i]:
+                continue
+            cost = 1 if (cur is not None and cur in runnable_log[i]) else 0
+            if used + cost <= bound:
+                kids.append((tuple(choices[:i]) + (alt,), used + cost))
+    return kids
 
-    `run_with(chooser) -> sched` executes one fresh run and returns its `Sched` (with `.choices` and
-    `.runnable_log`).  Yields the result of every run as `(prefix, sched)`.  Stateless DFS: a node is the
-    forced prefix of choices; after the prefix the run continues without preemption (current thread while it
-    can, else the lowest runnable id).  Children of a node: at every position at or after the end of its
-    prefix, every other runnable thread.  Each schedule is generated exactly once.
-    `shard=(i, n)` keeps the i-th of n slices of the first-level children (deterministic work split).
+
+def explore(run_with, bound, max_runs=None, start=((), 0)):
+    """Every schedule with at most `bound` preemptions below the node `start` = (forced prefix, preemptions used).
+
+    `run_with(chooser)` executes one fresh run and returns an object with `.choices` and `.runnable_log`.
+    Yields `(prefix, result)` for every run.  Stateless DFS: a node is the forced prefix of choices; after the
+    prefix the run continues without preemption (the current thread while it can, else the lowest runnable
+    id).  Children of a node: at every position at or after the end of its prefix, every other runnable
+    thread (a switch away from a thread that could have continued costs one preemption).  Each schedule is
+    generated exactly once.
     """
-    stack = [((), 0)]
+    stack = [start]
     runs = 0
-    first = True
     while stack:
         prefix, used = stack.pop()
-        sched = run_with(Replay(prefix))
+        res = run_with(Replay(prefix))
         runs += 1
-        yield prefix, sched
+        yield prefix, res
         if max_runs is not None and runs >= max_runs:
             return
-        ch, rl = sched.choices, sched.runnable_log
-        kids = []
-        for i in range(len(prefix), len(ch)):
-            cur = ch[i - 1] if i > 0 else None
-            for alt in rl[i]:
-                if alt == ch[i]:
-                    continue
-                cost = 1 if (cur is not None and cur in rl[i]) else 0
-                if used + cost <= bound:
-                    kids.append((tuple(ch[:i]) + (alt,), used + cost))
-        if first and shard is not None:
-            kids = [k for j, k in enumerate(kids) if j % shard[1] == shard[0]]
-            if shard[0] != 0:
-                pass
-        first = False
-        stack.extend(reversed(kids))
+        stack.extend(reversed(children(res.choices, res.runnable_log, len(prefix), used, bound)))
